@@ -207,16 +207,25 @@ def _correspond(ctx, rng):
             ctx.hist('corr_kind', kind)
             ctx.hist('corr_style', info['style'])
             ctx.hist('corr_cells', 10 * (m.t.shape[1] // 10))
-            rep = (kind, info['style'], m.t.shape[1], _shares(m))
-            cases2.append((case_input(kind, m), tables2(m), rep))
+            try:
+                rep = (kind, info['style'], m.t.shape[1], _shares(m))
+                out2 = tables2(m)
+                out3 = None
+                if kind in ('tet', 'hex') and len(m.boundary_facets()) > 0:
+                    # (a 3-D cell complex without boundary facets is not embeddable; boundary_edges raises on it)
+                    out3 = clist([zrows(m.edges.T), zrows(m.t2e), zrows(m.f2e), zrows([np.sort(m.boundary_edges())]),
+                                  zrows([np.sort(m.interior_edges())])])
+            except Exception as ex:     # the implementation raised on a mesh it accepted: a failing input
+                if info['style'] != 'abstract':
+                    ctx.fail(f'{kind}:exception', f'{type(m).__name__}: deriving the connectivity raises {type(ex).__name__}: {ex}',
+                             {'kind': kind, 'p': np.asarray(m.p).tolist(), 't': np.asarray(m.t).tolist(), 'info': info})
+                continue
+            cases2.append((case_input(kind, m), out2, rep))
             if len(ctx.cov['samples']) < 3 and i == 1:
                 ctx.sample({'kind': kind, 'info': info, 't': m.t.T.tolist(), 'facets': m.facets.T.tolist(),
                             't2f': m.t2f.tolist(), 'f2t': m.f2t.tolist()})
-            if kind in ('tet', 'hex') and len(m.boundary_facets()) > 0:
-                # (a 3-D cell complex without boundary facets is not embeddable; boundary_edges raises on it)
-                out = clist([zrows(m.edges.T), zrows(m.t2e), zrows(m.f2e), zrows([np.sort(m.boundary_edges())]),
-                             zrows([np.sort(m.interior_edges())])])
-                cases3.append((case_input(kind, m), out, rep))
+            if out3 is not None:
+                cases3.append((case_input(kind, m), out3, rep))
     ctx.corr('tables', imports, 'run2', 'zsss_eqb', cases2, per_file=60, defs=defs, nontrivial=lambda r: r[3])
     ctx.corr('tables3d', imports, 'run3', 'zsss_eqb', cases3, per_file=40, defs=defs, nontrivial=lambda r: r[3])
 
